@@ -284,9 +284,15 @@ func c13Exec(c Case) (outs []string, fails []Failure, tags []string) {
 				}
 			}
 			if pre.EnableCoinomics {
-				lastEnabledBlockTime = t
-				if k.GetPrevBlockTS(ctx).BigInt().Cmp(big.NewInt(t)) != 0 {
-					lastEnabledBlockTime = k.GetPrevBlockTS(ctx).BigInt().Int64() // negative branch keeps the old reference
+				// "consecutive block timestamps": every block processed while enabled becomes the reference of the
+				// next one — except when the clock ran backwards or the reward is negative (cannot happen under
+				// CometBFT / sane params; the code then mints nothing and keeps the old reference)
+				negative := lastEnabledBlockTime != 0 && (t < lastEnabledBlockTime || pre.RewardCoefficient.IsNegative())
+				if !negative {
+					lastEnabledBlockTime = t
+				}
+				if !negative && k.GetPrevBlockTS(ctx).BigInt().Cmp(big.NewInt(t)) != 0 && preSupply.Cmp(maxS) <= 0 {
+					fl("C13:reference-not-advanced", fmt.Sprintf("enabled block at %d left the stored reference at %s: the next block's elapsed time will not be measured from this block", t, k.GetPrevBlockTS(ctx)))
 				}
 			} else {
 				lastEnabledBlockTime = 0
